@@ -100,7 +100,7 @@ pub struct SimRng {
     last_word: Vec<u8>,
     pub bytes_delivered: u64,
     delivered_in_call: u64,
-    armed: Option<(u64, Plan)>,
+    armed: VecDeque<(u64, Plan)>,
     pub err_code: u32,
     /// lean mode for complete word-space sweeps: first request gets `word`, later ones fresh words; no history
     pub sweep: Option<SweepState>,
@@ -129,7 +129,7 @@ impl SimRng {
             last_word: Vec::new(),
             bytes_delivered: 0,
             delivered_in_call: 0,
-            armed: None,
+            armed: VecDeque::new(),
             err_code: 0xC000_0007,
             sweep: None,
         }
@@ -172,7 +172,7 @@ impl SimRng {
         self.total_in_call = 0;
         self.unit_bytes = unit.max(8) as u64;
         self.delivered_in_call = 0;
-        self.armed = None;
+        self.armed.clear();
         self.last_word.clear();
         self.plan.clear();
         self.plan.extend(plan.iter().cloned());
@@ -219,13 +219,15 @@ impl SimRng {
         }
         let mut p = self.plan.pop_front().unwrap_or(Plan::Fresh);
         while let Plan::FaultAtByte(n, inner) = p {
-            self.armed = Some((n, *inner));
+            // several entries with the same count make a burst: a failed request delivers nothing, so the next
+            // request crosses the same count again
+            self.armed.push_back((n, *inner));
             p = self.plan.pop_front().unwrap_or(Plan::Fresh);
         }
-        if let Some((n, _)) = &self.armed {
+        if let Some((n, _)) = self.armed.front() {
             if self.delivered_in_call + dest.len() as u64 > *n {
                 // the armed fault replaces this request's answer; the planned answer serves the next request
-                let (_, f) = self.armed.take().unwrap();
+                let (_, f) = self.armed.pop_front().unwrap();
                 if !matches!(p, Plan::Fresh) {
                     self.plan.push_front(p);
                 }
